@@ -11,7 +11,8 @@ class C12(Prop):
             "every id issued since creation/clear (ids of deleted webentities and ids issued before a reopen included), an "
             "explicit creation must yield exactly one id, and the prefix enumeration must show exactly the reported prefixes "
             "under that id (no id appears that was never reported). non-trivial = a creation after a deletion AND a creation "
-            "after a reopen.")
+            "after a reopen. A second, unrelated in-memory index is kept alive in the same process and creates one webentity every "
+            "third step: each index counts for itself.")
     MODES = ("url",)
     LONG_BIAS = 0.2
     BACKENDS = ("file", "file", "memory")
@@ -56,10 +57,37 @@ class C12(Prop):
                     ctx.fail("one-request-one-id", "create_webentity(%r) reported prefixes %r" % (op[1], out.created[ids[0]]), case)
         if op[0] == "create" and out.status == "ok" and not out.created:
             ctx.fail("one-request-one-id", "create_webentity succeeded but reported no id", case)
+        self.bystander(case)
         got = check_prefix_enumeration(case)
         unknown = sorted(set(got.values()) - set(led.issued))
         if unknown:
             ctx.fail("id-never-reported", "prefixes carry ids %r that no report ever announced" % unknown[:3], case)
+
+    def bystander(self, case):
+        """a second, unrelated index alive in the same process (opened at the 3rd step, one creation every 3rd step): each
+        index counts for itself, so neither its opening nor its creations may disturb the ids of the index under test
+        (checked by the clauses above on the next creation), and its own ids must be fresh too"""
+        st = case.state
+        k = st["steps"] = st.get("steps", 0) + 1
+        if k % 3:
+            return
+        from ..env import Traph
+        from ..rules import RULES
+        try:
+            if st.get("bystander") is None:
+                st["bystander"] = Traph(folder=None, default_webentity_creation_rule=RULES["domain"], webentity_creation_rules={})
+                st["bystander_ids"] = []
+            rep = st["bystander"].create_webentity([b"s:http|h:com|h:bystander%d|" % k])
+            ids = sorted(rep.created_webentities)
+        except Exception as e:
+            case.ctx.fail("bystander-exception", "a second in-memory index in the same process raised %r at step %d" % (e, k), case)
+            return
+        seen = st["bystander_ids"]
+        if len(ids) != 1 or (seen and ids[0] <= max(seen)):
+            case.ctx.fail("id-not-fresh", "a second index alive in the same process reported ids %r after having issued %r (the index under test had issued up to %r)"
+                          % (ids, seen[-5:], max(case.led.issued) if case.led.issued else 0), case)
+        seen.extend(ids)
+        case.flag("bystander-creation")
 
     def nontrivial(self, case):
         return "creation-after-deletion" in case.flags and "creation-after-reopen" in case.flags
